@@ -28,10 +28,13 @@ def template(cx, fam, status, tag="tmpl"):
     fixed = {}
     for p, st in status.items():
         if st in "fb":
-            # the fixed value is f_<p>; the working attribute <p> is deliberately NOT assumed equal to it,
-            # so that reading the wrong attribute is visible
+            # well_formed(template): a parameter declared fixed HAS its fixed value (<p> == f_<p>) - established by
+            # every family constructor (obligations ctor.<Family>::post.ctor.*, C11) and kept by fit (fit_mle.*).
+            # Without it a change that reads the equal attribute <p> instead of f_<p> would be reported although the
+            # property holds on every constructible template.
             f = real(cx, f"{tag}.f_{p}")
             obj.fields["f_" + p] = f
+            cx.assume(T.eq(vals[p], f.t), "well_formed(template): fixed parameter at its fixed value (ctor.* / fit_mle.* post-conditions)")
             fixed[p] = f.t
     return obj, vals, fixed
 
